@@ -841,32 +841,59 @@ func simplifyCallBuildingTypedQuery(symbol string, call b6.CallExpression) (b6.A
 func simplifyLambda(expression b6.Expression, functions SymbolArgCounts) b6.Expression {
 	lambda := expression.AnyExpression.(b6.LambdaExpression)
 	lambda.Expression = Simplify(lambda.Expression, functions)
-	// '{a -> area a}' is semantically equivalent to 'area'
-	if call, ok := lambda.Expression.AnyExpression.(b6.CallExpression); ok && len(lambda.Args) > 0 {
-		i := 0
-		for i < len(lambda.Args) && i < len(call.Args) {
-			if s, ok := call.Args[i].AnyExpression.(b6.SymbolExpression); ok {
-				if s.String() != lambda.Args[i] {
-					break
-				}
-			} else {
-				break
-			}
-			i++
+	// '{a -> area a}' is semantically equivalent to 'area', and '{a -> get a "name"}'
+	// to 'get "name"' (a partial call binds the trailing arguments), see canEtaReduce.
+	if call, ok := lambda.Expression.AnyExpression.(b6.CallExpression); ok && canEtaReduce(lambda, call, functions) {
+		if len(lambda.Args) == len(call.Args) {
+			return Simplify(call.Function, functions)
 		}
-		if i > 0 {
-			if i == len(call.Args) {
-				return Simplify(call.Function, functions)
-			}
-			s := expression
-			s.AnyExpression = b6.CallExpression{
-				Function: call.Function,
-				Args:     call.Args[i:len(call.Args)],
-			}
-			return simplifyCall(s, functions)
+		s := expression
+		s.AnyExpression = b6.CallExpression{
+			Function: call.Function,
+			Args:     call.Args[len(lambda.Args):len(call.Args)],
 		}
+		return simplifyCall(s, functions)
 	}
 	return expression
+}
+
+// canEtaReduce returns true if the lambda can be replaced by the function it
+// calls, applied to the arguments that follow the lambda's own. That's only the
+// case if the lambda passes all of its arguments, in order, as the leading
+// arguments of a known function that expects exactly the arguments given (and
+// isn't variadic), doesn't otherwise use them, and if the remaining arguments
+// are constants, since anything else would be evaluated once, when the lambda
+// is created, rather than each time it's called.
+func canEtaReduce(lambda b6.LambdaExpression, call b6.CallExpression, functions SymbolArgCounts) bool {
+	symbol, ok := call.Function.AnyExpression.(b6.SymbolExpression)
+	if !ok || len(lambda.Args) == 0 || len(call.Args) < len(lambda.Args) {
+		return false
+	}
+	if n, ok := functions.ArgCount(symbol); !ok || n != len(call.Args) {
+		return false
+	}
+	if v, _ := functions.IsVariadic(symbol); v {
+		return false
+	}
+	for i, arg := range lambda.Args {
+		if s, ok := call.Args[i].AnyExpression.(b6.SymbolExpression); !ok || s.String() != arg || symbol.String() == arg {
+			return false
+		}
+	}
+	for _, a := range call.Args[len(lambda.Args):] {
+		switch a := a.AnyExpression.(type) {
+		case b6.SymbolExpression:
+			for _, arg := range lambda.Args {
+				if a.String() == arg {
+					return false
+				}
+			}
+		case b6.AnyLiteral:
+		default:
+			return false
+		}
+	}
+	return true
 }
 
 func simplifyQuery(query b6.Query) b6.Query {
